@@ -4,6 +4,8 @@ package props
 
 import (
 	"fmt"
+	"os"
+	"strings"
 	"testing"
 
 	"verif/harness/ev"
@@ -36,8 +38,18 @@ func runMatrix(t *testing.T, prop, mode string, protos []string, kinds, listKind
 			for m := range run.Members {
 				cells = append(cells, faultCase{Run: run, F: faultSpec{Deviator: m, Kind: "wrong-secret", Field: fieldRef{"Xi", -1}, MsgType: "(key data)"}})
 			}
+			if run.Proto == "ecdsa-keygen" || run.Proto == "ecdsa-resharing" {
+				for _, bits := range []int{1024, 512} {
+					for m := 0; m < 2; m++ {
+						cells = append(cells, faultCase{Run: run, F: faultSpec{Deviator: m, Kind: fmt.Sprintf("weak-params-%d", bits), Field: fieldRef{"preparams", -1}, MsgType: "(parameters)"}})
+					}
+				}
+			}
 		}
 		for _, c := range cells {
+			if flt := os.Getenv("VERIF_CELLFILTER"); flt != "" && !strings.Contains(fmt.Sprintf("%s.%s:%s", shortType(c.F.MsgType), c.F.Field.Name, c.F.Kind), flt) {
+				continue // development aid
+			}
 			total++
 			if total%shards != shard {
 				continue
